@@ -106,6 +106,7 @@ func (e *c05kEnv) begin(tr *Trace) *c05kSeq {
 	q := &c05kSeq{e: e, tr: tr, ctx: ctx, height: 2, now: c05kT0 + 5}
 	q.ctx = q.ctx.WithBlockHeight(q.height).WithBlockTime(time.Unix(q.now, 0).UTC())
 	tr.Line("amm.k.begin", strconv.Itoa(e.prec))
+	q.params()
 	return q
 }
 
@@ -232,9 +233,33 @@ func TestC05Keeper(t *testing.T) {
 		q.endBlock()
 		q.place(4, false, dec("0.95"), sdkmath.NewInt(20000), 0)
 		q.endBlock()
+		q.place(1, false, dec("0.950049"), sdkmath.NewInt(3000), hour) // between two ticks: a sell is fitted UP
+		q.place(2, true, dec("0.950051"), sdkmath.NewInt(3000), hour)  // a buy DOWN
+		q.endBlock()
 	}
 
-	seqs := scale(2500, 30000)
+	// ---- corpus: market orders (limit = last price ± 10 % on the grid) and MM ladders, re-placed (previous ones canceled) ------
+	{
+		q := e.begin(tr)
+		q.placeMarket(1, true, sdkmath.NewInt(1000), 0) // no last price yet: rejected
+		q.place(1, true, dec("1.0"), sdkmath.NewInt(100), 0)
+		q.place(2, false, dec("1.0"), sdkmath.NewInt(100), 0)
+		q.endBlock() // last price 1.0
+		q.placeMarket(3, true, sdkmath.NewInt(1000), hour)  // stored with limit 1.1
+		q.placeMarket(4, false, sdkmath.NewInt(700), hour)  // stored with limit 0.9: both cross, trade at 1.0
+		q.placeMM(1, c05kLadder(e.prec, amm.TickToIndex(dec("1.0"), e.prec), 300, true, sdkmath.NewInt(100000)),
+			c05kLadder(e.prec, amm.TickToIndex(dec("1.0"), e.prec), 300, false, sdkmath.NewInt(100003)), hour)
+		q.placeMM(1, nil, c05kLadder(e.prec, amm.TickToIndex(dec("1.0"), e.prec), 5, false, sdkmath.NewInt(5000)), hour) // same batch: rejected
+		q.endBlock()
+		q.place(5, true, dec("1.02"), sdkmath.NewInt(30000), 0) // eats into the MM sell ladder
+		q.endBlock()
+		q.placeMM(1, c05kLadder(e.prec, amm.TickToIndex(dec("1.01"), e.prec), 1, true, sdkmath.NewInt(999)), nil, hour) // cancels the first ladder
+		q.placeMarket(2, false, sdkmath.NewInt(50000), 0)
+		q.endBlock()
+		q.endBlock()
+	}
+
+	seqs := scale(2000, 20000)
 	for s := 0; s < seqs; s++ {
 		q := e.begin(tr)
 		// a market around p0 on the tick grid of the pair's precision
@@ -304,7 +329,55 @@ func TestC05Keeper(t *testing.T) {
 				if (mode == 1 || mode == 2) && b <= 1 && i == 0 {
 					l = hour
 				}
-				q.place(1+rng.Intn(5), buy, tick(d), amount(), l)
+				price := tick(d)
+				if rng.Chance(30) { // a message price between two ticks: fitted down for a buy, up for a sell
+					gap := tick(d + 1).Sub(price)
+					price = price.Add(gap.MulInt64(int64(1 + rng.Intn(9))).QuoInt64(10))
+					tr.Count("k.place:off-grid-price")
+				}
+				switch rng.Intn(60) {
+				case 0: // far outside the price limits of the pair (rejected once there is a last price)
+					price = tick(d + 3000 - 6000*rng.Intn(2))
+					tr.Count("k.place:far-price")
+				case 1: // a lifespan beyond MaxOrderLifespan: rejected
+					l = 48 * hour
+					tr.Count("k.place:too-long-lifespan")
+				}
+				q.place(1+rng.Intn(5), buy, price, amount(), l)
+			}
+			if rng.Chance(30) {
+				q.placeMarket(1+rng.Intn(5), rng.Chance(50), amount(), life())
+			}
+			if rng.Chance(25) {
+				var bs, ss *c05kSide
+				w := []int{1, 5, 30, 200}[rng.Intn(4)]
+				c := center + rng.Intn(21) - 10
+				if rng.Chance(70) {
+					bs = c05kLadder(e.prec, c, w, true, amount())
+				}
+				if bs == nil || rng.Chance(70) {
+					ss = c05kLadder(e.prec, c, w, false, amount())
+				}
+				switch rng.Intn(25) {
+				case 0: // an end of the range between two ticks: ErrPriceNotOnTicks
+					side := ss
+					if side == nil {
+						side = bs
+					}
+					side.min = side.min.Add(sdkmath.LegacyNewDecWithPrec(1, 18))
+					tr.Count("k.mm:off-grid-end")
+				case 1: // a range far outside the price limits: ErrPriceOutOfRange once there is a last price
+					if bs != nil {
+						bs = c05kLadder(e.prec, c-4000, w, true, bs.amt)
+					} else {
+						ss = c05kLadder(e.prec, c+4000, w, false, ss.amt)
+					}
+					tr.Count("k.mm:far-range")
+				}
+				q.placeMM(1+rng.Intn(3), bs, ss, life())
+				if rng.Chance(10) { // a second MM order of the same orderer in the same batch: ErrSameBatch
+					q.placeMM(1+rng.Intn(3), bs, ss, life())
+				}
 			}
 			q.endBlock()
 		}
